@@ -128,6 +128,31 @@ fn check_acceptance(r: &mut Rng, rep: &mut Report) -> Result<(), String> {
     Ok(())
 }
 
+/// The documented defaults on one day, without coordinates (plain and zoned context).
+struct DefaultSweep {
+    plain: OpeningHours,
+    zoned: OpeningHours<TzLocation<Tz>>,
+}
+
+impl DefaultSweep {
+    fn new() -> Self {
+        let text = "dawn-sunrise,sunset-dusk";
+        DefaultSweep { plain: OpeningHours::parse(text).unwrap(), zoned: OpeningHours::parse(text).unwrap().with_context(Context::default().with_locale(TzLocation::new(chrono_tz::Pacific::Chatham))) }
+    }
+
+    fn check(&self, d: NaiveDate) -> Result<(), String> {
+        let expected = vec![(0u16, 360u16, RuleKind::Closed), (360, 420, RuleKind::Open), (420, 1140, RuleKind::Closed), (1140, 1200, RuleKind::Open), (1200, 1440, RuleKind::Closed)];
+        let flat = |s: opening_hours::schedule::Schedule| -> Vec<(u16, u16, RuleKind)> { s.into_iter().map(|t| (t.range.start.mins_from_midnight(), t.range.end.mins_from_midnight(), t.kind)).collect() };
+        let got = guarded(|| (flat(self.plain.schedule_at(d)), flat(self.zoned.schedule_at(d)), NoLocation.event_time(d, TimeEvent::Dusk)));
+        let ok = matches!(&got, Ok((a, b, t)) if *a == expected && *b == expected && t.hour() == 20 && t.minute() == 0);
+        if ok {
+            Ok(())
+        } else {
+            Err(format!("\"dawn-sunrise,sunset-dusk\" on {d} without coordinates: {got:?}, expected open 06:00-07:00 and 19:00-20:00 (exhaustive sweep over every day)"))
+        }
+    }
+}
+
 pub struct Site {
     pub lat: f64,
     pub lon: f64,
@@ -289,6 +314,35 @@ pub fn run(args: &Args, rep: &mut Report) {
             lat += 5.0;
         }
     }
+    // Exhaustive over dates: the defaults on EVERY day of the supported range (years sharded)
+    {
+        let of = args.of.max(1) as i32;
+        let mut bad = 0;
+        let sweep = DefaultSweep::new();
+        'years: for y in 1900..=9999i32 {
+            if y % of != args.worker as i32 {
+                continue;
+            }
+            let mut d = NaiveDate::from_ymd_opt(y, 1, 1).unwrap();
+            while d.year() == y {
+                if d > NaiveDate::from_ymd_opt(1900, 1, 1).unwrap() {
+                    rep.count("default_event_days_swept");
+                    if let Err(msg) = sweep.check(d) {
+                        rep.violation("default_events", msg, json!({"part": "defaults_sweep", "date": d.to_string()}), None);
+                        bad += 1;
+                        if bad > 3 {
+                            break 'years;
+                        }
+                    }
+                }
+                d = match d.succ_opt() {
+                    Some(n) => n,
+                    None => break,
+                };
+            }
+        }
+        rep.evaluations += 1;
+    }
     let n = args.cases(400_000, 4_000_000);
     for k in 0..n {
         let mut r = Rng::new(args.seed, args.worker, k);
@@ -362,6 +416,10 @@ pub fn replay(case: &Value, rep: &mut Report) {
     if let (Some(lat), Some(lon), Some(date)) = (case["lat"].as_f64(), case["lon"].as_f64(), case["date"].as_str().and_then(|s| s.parse::<NaiveDate>().ok())) {
         if let Err(msg) = check_site(lat, lon, date, rep) {
             rep.violation("sun_events", msg, case.clone(), None);
+        }
+    } else if let (Some("defaults_sweep"), Some(d)) = (case["part"].as_str(), case["date"].as_str().and_then(|s| s.parse::<NaiveDate>().ok())) {
+        if let Err(msg) = DefaultSweep::new().check(d) {
+            rep.violation("default_events", msg, case.clone(), None);
         }
     } else if let (Some(seed), Some(w), Some(i)) = (case["seed"].as_u64(), case["worker"].as_u64(), case["index"].as_u64()) {
         let mut r = Rng::new(seed, w, i);
